@@ -17,6 +17,12 @@ def run(tier, seed):
     for tag, cfgs in fams:
         def make_real(cfg, tag=tag):
             r = R.Real(cfg)
+            if tag == 'orders':
+                # the same order lists on a zone-aware grid, the order stamps given in the grid's zone and (the same instants) in other zones
+                r_cet = R.Real(cfg, calendar='h_cet')
+                r_utc = R.Real(cfg, calendar='h_cet')
+                r_utc.order_zone = ['UTC', 'America/New_York'][cfg['id'] % 2]
+                return [r, r_cet, r_utc] if (cfg['id'] + seed) % 2 == 0 or tier != 'quick' else [r]
             if tag == 'orders_companions':
                 # fresh objects and objects that were set up before on the same grid must both conform to the same TLC behaviours
                 r2 = R.Real(cfg)
